@@ -43,7 +43,7 @@ def _value(ex, m, sv):
         if lk not in ex.heap0 or nk not in ex.heap0:
             raise KeyError(ty)
         n = m.eval(z3.Select(ex.heap0[nk], sv.z), model_completion=True)
-        if not z3.is_int_value(n) or not (0 <= n.as_long() <= 4096):
+        if not z3.is_int_value(n) or not (0 <= n.as_long() <= 256):
             raise KeyError(ty)
         arr = z3.Select(ex.heap0[lk], sv.z)
         xs = [m.eval(z3.Select(arr, z3.IntVal(j)), model_completion=True).as_long() for j in range(n.as_long())]
